@@ -127,6 +127,8 @@ def addr_alphabet(seed: int, groups: bool = False, small: bool = False):
             mk("nc_odd_even", w, 0x000000FE),               # 0.0.0.254
             mk("nc_top_bit", w, 0x80000000),                # 128.0.0.0
             mk("nc_two_octets", w, 0x00FF00FF),             # 0.255.0.255
+            # same base and same stray bit as nc_low_run_plus_bit, no contiguous tail
+            mk("nc_bit8_no_tail", w, 0x00000100),
             # same masks on another base: results must not be shared between objects
             mk("nc_low_run_plus_bit_ext", ext, 0x00000103),
             mk("nc_odd_even_ext", ext + 1, 0x000000FE),
